@@ -159,6 +159,7 @@ fn main() {
             Some(v) if v.get("check").is_some() && v.get("case").is_some() => {
                 let check = v["check"].as_str().unwrap_or("").to_string();
                 r.replay = Some((check, v["case"].clone()));
+                r.replay_pre = v.get("preceded_by").and_then(|p| p.as_array()).cloned().unwrap_or_default();
             }
             _ => {
                 // raw bytes (e.g. a libFuzzer artifact): judged by the property's byte-level check
